@@ -7,6 +7,10 @@ From Coq Require Import Arith.
 Close Scope Z_scope.
 Open Scope nat_scope.
 
+(* fix 79f9965 (F25b): intersect_pair builds the exact meet of two non-recursive callable
+   (process) types instead of answering `a` for every overlapping pair *)
+Definition current_meet_callable : bool := true.   (* since fix 79f9965 (F25b) *)
+
 Section Narrow.
   Variable cfg : rel_cfg.
   Variable rel_fuel : nat.
@@ -171,6 +175,83 @@ Section Narrow.
               end
           | _, _ => Some (P0, never_id)
           end
+        (* fix_F25b: `if !contains_cycle(a) && !contains_cycle(b)` guards both arms *)
+        | TCallable p1 r1 c1, TCallable p2 r2 c2 =>
+          let default :=
+            match types_overlap P0 a b with
+            | None => None
+            | Some true => Some (P0, a)
+            | Some false => Some (P0, never_id)
+            end in
+          if negb current_meet_callable then default else
+          match cyclic rel_fuel P0 a with
+          | None => None
+          | Some ca =>
+          match (if ca then Some true else cyclic rel_fuel P0 b) with
+          | None => None
+          | Some true => default
+          | Some false =>
+            match is_compatible P0 a b with
+            | None => None
+            | Some true => Some (P0, a)
+            | Some false =>
+            match is_compatible P0 b a with
+            | None => None
+            | Some true => Some (P0, b)
+            | Some false =>
+              let '(P1, parameter) := union_type_ids P0 [p1; p2] in
+              match intersect_types f P1 r1 r2 with
+              | None => None
+              | Some (P2, result) =>
+                let '(P3, receive) := union_type_ids P2 [c1; c2] in
+                Some (register_type P3 (TCallable parameter result receive))
+              end
+            end end
+          end end
+        | TProcess s1 r1, TProcess s2 r2 =>
+          let default :=
+            match types_overlap P0 a b with
+            | None => None
+            | Some true => Some (P0, a)
+            | Some false => Some (P0, never_id)
+            end in
+          if negb current_meet_callable then default else
+          match cyclic rel_fuel P0 a with
+          | None => None
+          | Some ca =>
+          match (if ca then Some true else cyclic rel_fuel P0 b) with
+          | None => None
+          | Some true => default
+          | Some false =>
+            match is_compatible P0 a b with
+            | None => None
+            | Some true => Some (P0, a)
+            | Some false =>
+            match is_compatible P0 b a with
+            | None => None
+            | Some true => Some (P0, b)
+            | Some false =>
+              (* meet(x, y): both known => intersect; one unknown => the other; none => unknown *)
+              let meet (P : registry) (x y : option nat) : option (registry * option nat) :=
+                match x, y with
+                | Some x, Some y => match intersect_types f P x y with
+                                    | None => None
+                                    | Some (P', m) => Some (P', Some m)
+                                    end
+                | Some x, None => Some (P, Some x)
+                | None, Some y => Some (P, Some y)
+                | None, None => Some (P, None)
+                end in
+              match meet P0 s1 s2 with
+              | None => None
+              | Some (P1, send) =>
+                match meet P1 r1 r2 with
+                | None => None
+                | Some (P2, receive) => Some (register_type P2 (TProcess send receive))
+                end
+              end
+            end end
+          end end
         | _, _ =>
           match types_overlap P0 a b with
           | None => None
